@@ -78,7 +78,7 @@ def alt_data(pr, rng):
             t, rv, err = t[keep], rv[keep], err[keep]
         rv = rv + rng.normal(0, 1, len(rv)) * np.abs(err) * 3
         un = scen.U(sv["unit"])
-        datas.append(tj.RVData(t=t, rv=rv * un, rv_err=err * un))
+        datas.append(tj.RVData(t=t, rv=rv * un, rv_err=err * scen.U(sv.get("err_unit", sv["unit"]))))
     if pr.keys == "single":
         return datas[0]
     if pr.keys is None:
